@@ -309,7 +309,18 @@ impl Gen {
             }
             1 => Op::Get { k },
             2 => Op::Contains { k },
-            3 => Op::Iter,
+            3 => {
+                // sometimes hold the iterator across a clock advance that reaches a deadline
+                if (cfg.ttl.is_some() || cfg.tti.is_some()) && self.rng.chance(1, 3) {
+                    let ns = match truth.next_deadline(now) {
+                        Some(d) if self.rng.chance(3, 4) => (d - now) + self.rng.below(2),
+                        _ => self.rng.below(20),
+                    };
+                    Op::IterAdvance { ns }
+                } else {
+                    Op::Iter
+                }
+            }
             4 => Op::Invalidate { k },
             5 => Op::InvalidateAll,
             6 => {
